@@ -186,3 +186,15 @@ plan("C20", "c20.py", "messages x timestamps x field names/values; input streams
      "Trusted: pprint.pformat / json.dumps / json.loads / datetime contracts (returns text; loads raises ValueError subclasses or "
      "RecursionError only; object keys are str), argparse, the stream model. Known findings C20-F1 (backslash-n rendering), C20-F2 "
      "(ill-typed required fields abort the formatter: assumed away in _main's contract).")
+
+plan("C17", "c17.py", "logging programs on one MemoryLogger (deferred children, remote sub-tasks, repeated types, several tasks) x assert variants, on the real code",
+     "Proof per helper, with the declarative specification written as a ghost fold over the message list that the loop invariant ties to the "
+     "code's decisions: LoggedAction.of_type returns exactly one entry (one fromMessages call, in list order) per message whose action_type is "
+     "the requested type and whose status is started -- at any depth and in any task; LoggedAction.fromMessages collects as children exactly the "
+     "direct messages (own level prefix, no action status) and the direct child actions (first message two levels down ending in 1) in list "
+     "order, with the last own start / end message; LoggedMessage.of_type returns exactly the messages of the type; assertContainsFields passes "
+     "iff the message restricted to the expected keys equals the expected fields; assertHasMessage succeeds iff the first entry contains the "
+     "fields and returns it. Agreement with the parser's tree, descendants / type_tree pre-order and assertHasAction are decided by the bounded "
+     "driver only.",
+     "Trusted: unittest.TestCase.assertEqual / assertTrue semantics, pyrsistent PClass construction, encoding assumptions. Termination of the "
+     "fromMessages recursion is not proved (depth bounded by the data). Known finding C17-F1 (of_type raises on an unfinished action).")
